@@ -472,6 +472,12 @@ def _child_call(job):
     E.DEADLINE[0] = r.deadline + 20  # hard stop for solver calls made outside Run.prove
     try:
         func(r, item)
+    except E.UNSUPPORTED_EXC + (TypeError, AttributeError, IndexError, KeyError, ValueError, ArithmeticError) as e:
+        # the (possibly changed) code does something the symbolic harness cannot interpret: undecided, never an alarm and
+        # not a failure of the checker either (on the unchanged tree an undecided section shows up as a level mismatch)
+        tb = traceback.format_exc().splitlines()
+        where = next((ln.strip() for ln in reversed(tb) if ln.strip().startswith("File")), "")
+        r.undecided(f"section {item!r}", "pv.harness", f"the harness could not interpret the code: {type(e).__name__}: {str(e)[:160]} @ {where[:160]}")
     except Exception:
         r.checker_failures.append(f"exception in parallel section {item!r}: " + traceback.format_exc()[-1500:])
     finally:
